@@ -424,7 +424,7 @@ func (fg *FunctionGenerator) GenerateCustom(ast parser2.AST, gc funcGen.Generato
 		}
 		l := tc.GetLine()
 		return func(st funcGen.Stack[Value], cs []Value) (Value, error) {
-			tryVal, tryErr := tryFunc(st, cs)
+			tryVal, tryErr := funcGen.CatchPanic(tryFunc, st, cs)
 			if tryErr == nil {
 				return tryVal, nil
 			}
